@@ -51,10 +51,21 @@ for t in ('DT_YMD', 'DT_YD', 'DT_YWD', 'DT_DAISY'):
       replace=['__ymcw_cmp/UNREACH___ymcw_cmp'], solvers=SV, timeout=600, sweep={'in_u1': 'RND', 'in_u2': 'RND'})
 G('dm.__yd_fixup', 'date-core', '__yd_fixup', ['C04'], ins=[('uint32_t', 'in_u')], setup='dt_yd_t d; d.u = in_u;', call='__yd_fixup(d)', ret='dt_yd_t', replace=['__get_ydays'], sweep={'in_u': SWD})
 UNR = lambda *fs: ['%s/UNREACH_%s' % (f, f) for f in fs]
-G('dm.dt_dadd_m', 'date-core', 'dt_dadd_m', ['C04'], ins=[('uint32_t', 'in_u'), ('int', 'in_n')], setup='struct dt_d_s d = {DT_DUNK}; d.typ = DT_YMD; d.u = in_u;', call='dt_dadd_m(d, in_n)', ret='struct dt_d_s',
-  replace=['__ymd_add_m'] + UNR('__ymcw_add_m', '__bizda_add_m'), solvers=SV, sweep={'in_u': SWY, 'in_n': '(int)(RND % 2000) - 1000'})
-G('dm.dt_dadd_y', 'date-core', 'dt_dadd_y', ['C04'], ins=[('uint32_t', 'in_u'), ('int', 'in_n')], setup='struct dt_d_s d = {DT_DUNK}; d.typ = DT_YMD; d.u = in_u;', call='dt_dadd_y(d, in_n)', ret='struct dt_d_s',
-  replace=['__ymd_add_y'] + UNR('__ymcw_add_y', '__bizda_add_y', '__ywd_add_y', '__yd_add_y'), solvers=SV, sweep={'in_u': SWY, 'in_n': '(int)(RND % 200) - 100'})
+G('dm.__ymcw_add_y', 'date-core', '__ymcw_add_y', ['C04'], ins=[('uint32_t', 'in_u'), ('int', 'in_n')], setup='dt_ymcw_t d; d.u = in_u;', call='__ymcw_add_y(d, in_n)', ret='dt_ymcw_t',
+  sweep={'in_u': SWC, 'in_n': '(int)(RND % 200) - 100'})
+G('dm.__yd_add_y', 'date-core', '__yd_add_y', ['C04'], ins=[('uint32_t', 'in_u'), ('int', 'in_n')], setup='dt_yd_t d; d.u = in_u;', call='__yd_add_y(d, in_n)', ret='dt_yd_t',
+  sweep={'in_u': SWD, 'in_n': '(int)(RND % 200) - 100'})
+ADDM = {'DT_YMD': '__ymd_add_m', 'DT_YMCW': '__ymcw_add_m', 'DT_BIZDA': '__bizda_add_m'}
+ADDY = {'DT_YMD': '__ymd_add_y', 'DT_YMCW': '__ymcw_add_y', 'DT_BIZDA': '__bizda_add_y', 'DT_YWD': '__ywd_add_y', 'DT_YD': '__yd_add_y'}
+SWT = {'DT_YMD': SWY, 'DT_YMCW': SWC, 'DT_YD': SWD, 'DT_YWD': 'RND'}
+for t in ('DT_YMD', 'DT_YMCW'):
+    G('dm.dt_dadd_m.' + t[3:], 'date-core', 'dt_dadd_m', ['C04'], ins=[(U, 'in_typ'), ('uint32_t', 'in_u'), ('int', 'in_n')], fix={'in_typ': t},
+      setup='struct dt_d_s d = {DT_DUNK}; d.typ = (dt_dtyp_t)in_typ; d.u = in_u;', call='dt_dadd_m(d, in_n)', ret='struct dt_d_s',
+      replace=[ADDM[t]] + UNR(*[f for k, f in ADDM.items() if k != t]), solvers=SV, sweep={'in_u': SWT[t], 'in_n': '(int)(RND % 2000) - 1000'})
+for t in ('DT_YMD', 'DT_YMCW', 'DT_YD', 'DT_YWD'):
+    G('dm.dt_dadd_y.' + t[3:], 'date-core', 'dt_dadd_y', ['C04'], ins=[(U, 'in_typ'), ('uint32_t', 'in_u'), ('int', 'in_n')], fix={'in_typ': t},
+      setup='struct dt_d_s d = {DT_DUNK}; d.typ = (dt_dtyp_t)in_typ; d.u = in_u;', call='dt_dadd_y(d, in_n)', ret='struct dt_d_s',
+      replace=[ADDY[t]] + UNR(*[f for k, f in ADDY.items() if k != t]), solvers=SV, sweep={'in_u': SWT[t], 'in_n': '(int)(RND % 200) - 100'})
 for t in ('DT_YMD', 'DT_YD', 'DT_YWD', 'DT_DAISY'):
     G('dm.dt_d_in_range_p.' + t[3:], 'date-core', 'dt_d_in_range_p', ['C08'], ins=[(U, 'in_typ'), ('uint32_t', 'in_u'), ('uint32_t', 'in_u1'), ('uint32_t', 'in_u2')], fix={'in_typ': t},
       setup='struct dt_d_s d = {DT_DUNK}, d1 = {DT_DUNK}, d2 = {DT_DUNK}; d.typ = d1.typ = d2.typ = (dt_dtyp_t)in_typ; d.u = in_u; d1.u = in_u1; d2.u = in_u2;',
